@@ -40,6 +40,7 @@ def mutants(prog):
         ("ExpFlow inverse keeps sign", M, "ExpFlow.inverse", "copy.scale *= -1", "copy.scale *= 1", "T11x.expflow"),
         ("expv: sampling grid in default precision", F, "expv", "grid.coords(dtype=flow.dtype, device=device)", "grid.coords(device=device)", "T11x.dtype"),
         ("svf inverse: forward exponential", "deepali.spatial.nonrigid", "StationaryVelocityFieldTransform.inverse", "u = inv.exp(v)", "u = self.exp(v)", "T67.inverse-velocity"),
+        ("tensor(): de-duplicated buffer lookup", "deepali.spatial.base", "NonRigidTransform.tensor", "if u is None or 'u' not in self._buffers:", "if u is None or 'u' not in {name for name, _ in self.named_buffers()}:", "T11x.svf-steps"),
     ]
     for name, mod, fn, old, new, expect in specs:
         ov = source_sub(prog, mod, fn, old, new)
